@@ -380,7 +380,10 @@ class Qubit:
 
         After freeing, the underlying physical qubit can be used to store another state.
         """
+        self.assert_active()
         self.builder._build_cmds_qfree(qubit_id=self.qubit_id)
+        # Release the virtual ID so that it can be handed out again.
+        self.active = False
 
 
 class FutureQubit(Qubit):
